@@ -309,6 +309,7 @@ theorem sStmt_lt {ts r} (h : sStmt ts = .ok r) : r.2.length < ts.length := by
           have := parseExpr_lt h1; have := expect_lt h2; simp at *; omega
     · simp at h
 
+set_option linter.unusedVariables false in
 /-- `program ::= stmt* EOF` (`acc` = statements read so far).  Nothing may follow `EOF`. -/
 def sProgram (acc : List Stmt) : List Tok → Except Nat (List Stmt)
   | [] => .error 0
